@@ -94,6 +94,9 @@ type Fix struct {
 	Big graph.IntGraph
 	// LoessF is ONE fitted function shared by all callers.
 	LoessF func(float64) float64
+	// ST is a shared accumulator that calls only pass as the ARGUMENT of Combine (its
+	// receiver is always a private copy); it holds more samples than the receivers.
+	ST stats.StreamStats
 	all    []*[]float64
 }
 
@@ -133,6 +136,9 @@ func NewFix(v int) *Fix {
 	}
 	f := &Fix{X1: spare(x1), X2: spare(x2), X3: spare(x3), W1: spare(w1), Y1: spare(y1)}
 	f.S1 = stats.Sample{Xs: f.X1}
+	for _, x := range append(append([]float64{}, base2...), x1...) {
+		f.ST.Add(x)
+	}
 	f.SW = stats.Sample{Xs: f.X1, Weights: f.W1}
 	sorted := append([]float64{}, x1...)
 	sort.Float64s(sorted)
@@ -201,6 +207,7 @@ func (f *Fix) Snapshot() []byte {
 		e.I(int(c))
 	}
 	e.F(f.Lin.Min, f.Lin.Max, f.Log.Min, f.Log.Max).B(f.Lin.Clamp).B(f.Log.Clamp)
+	e.I(int(f.ST.Count)).F(f.ST.Total, f.ST.Min, f.ST.Max, f.ST.Mean(), f.ST.Variance())
 	return e.Bytes()
 }
 
@@ -408,6 +415,21 @@ var Entries = []Entry{
 		s := graph.SubgraphRemove(f.G1, nil, []graph.Edge{{Node: 0, Edge: 2}, {Node: 0, Edge: 0}, {Node: 2, Edge: 0}, {Node: 2, Edge: 2}, {Node: 2, Edge: 1}, {Node: 4, Edge: 1}, {Node: 0, Edge: 2}})
 		return graphEnc(&Enc{}, s).Bytes()
 	}, "graph"},
+	{"stats.StreamStats.Combine(arg)", func(f *Fix) []byte {
+		// private receivers (smaller, equal-sized and empty) fold the SHARED accumulator in:
+		// the argument is only read
+		e := &Enc{}
+		var small, empty stats.StreamStats
+		for _, x := range f.X2 {
+			small.Add(x)
+		}
+		same := f.ST // value copy
+		for _, acc := range []*stats.StreamStats{&small, &empty, &same} {
+			acc.Combine(&f.ST)
+			e.I(int(acc.Count)).F(acc.Total, acc.Min, acc.Max, acc.Mean(), acc.Variance(), acc.RMS())
+		}
+		return e.Bytes()
+	}, "stats"},
 	{"graphalg.PreOrder/PostOrder/Euler", func(f *Fix) []byte {
 		e := (&Enc{}).Is(graphalg.PreOrder(f.G1, 0)).Is(graphalg.PostOrder(f.G1, 4))
 		graphalg.Euler{Enter: func(n int) { e.I(n) }, Exit: func(n int) { e.I(-n - 1) }}.Visit(f.G1, 0)
@@ -483,7 +505,7 @@ var Covered = []string{
 	"BinomialDist.NormalApprox", "HypergeometicDist.PMF", "HypergeometicDist.CDF", "TDist.PDF", "TDist.CDF", "HistogramQuantile", "HistogramIQR", "BetaInc", "GammaInc",
 	"GammaIncComp", "Choose", "Lchoose", "Beta", "Sum", "Map", "Vectorize", "Concat", "Linspace", "Logspace", "LinearLeastSquares", "PolynomialRegression",
 	"PolynomialRegressionResult.String", "LOESS", "Linear.Map", "Linear.Unmap", "Linear.Ticks", "Linear.CountTicks", "Linear.TicksAtLevel", "Log.Map", "Log.Unmap", "Log.Ticks",
-	"QQ.Map", "QQ.Unmap", "Equal", "MakeBiGraph", "SubgraphKeep", "SubgraphRemove", "PreOrder", "PostOrder", "Euler.Visit", "SCC", "SCCGraph.Subnodes", "SCCGraph.SubnodeComponent",
+	"QQ.Map", "QQ.Unmap", "Equal", "MakeBiGraph", "SubgraphKeep", "SubgraphRemove", "StreamStats.Combine", "StreamStats.Add", "StreamStats.Mean", "StreamStats.Variance", "StreamStats.RMS", "PreOrder", "PostOrder", "Euler.Visit", "SCC", "SCCGraph.Subnodes", "SCCGraph.SubnodeComponent",
 	"SCCGraph.Out", "SCCGraph.NumNodes", "IDom", "Dom", "DomFrontier", "DomTree.Out", "DomTree.NumNodes", "SimplifyMulti", "Dot.Sprint", "Dot.Fprint", "DotString", "NewLog",
 	"TickOptions.FindLevel", "IntGraph.Out", "IntGraph.NumNodes",
 }
